@@ -306,7 +306,7 @@ static void roll_sweep(void)
 {
 	void *f_init = vk_sym("isal_rolling_hash2_init"), *f_reset = vk_sym("isal_rolling_hash2_reset"), *f_run = vk_sym("isal_rolling_hash2_run");
 	if (!f_init || !f_reset || !f_run) { vk_stat("missing_symbol", 1); return; }
-	int extra = vk_thorough ? 150 : 70;
+	int extra = vk_thorough ? ((guard_mode || pair_mode || secrets_mode) ? 150 : 340) : 70;
 	long item = 0;
 	for (unsigned w = 1; w <= 48; w++) for (int impl = 0; impl < 3; impl++) {
 		if (vk_want_trace && !(w == 1 || w == 16 || w == 48)) continue;
@@ -643,7 +643,7 @@ static void gcms_sweep(void)
 	g_one = malloc(8192);
 	long item = 0, idx = 0;
 	if (vk_want_trace) vk_thorough = 0;
-	int maxsum = vk_want_trace ? 6 : vk_thorough ? 96 : ((guard_mode || pair_mode || secrets_mode) ? 40 : 64);
+	int maxsum = vk_want_trace ? 6 : vk_thorough ? ((guard_mode || pair_mode || secrets_mode) ? 96 : 144) : ((guard_mode || pair_mode || secrets_mode) ? 40 : 64);
 	for (int f = 0; f < 4; f++) for (int ks = 0; ks < 2; ks++) for (int dec = 0; dec < 2; dec++) {
 		if (!vk_host_can(gcm_need[f])) { vk_stat("skipped_family_not_executable_on_host", 1); continue; }
 		if (vk_only && !strstr(gcm_fams[f], vk_only)) continue;
@@ -682,6 +682,26 @@ static void gcms_sweep(void)
 			if (item++ % vk_nshards != vk_shard) continue;
 			static const size_t big[] = { 127, 128, 129, 255, 256, 767, 768, 769, 1023, 2047, 2048 };
 			for (unsigned bi = 0; bi < sizeof big / sizeof *big; bi++) { size_t pl[2] = { l1, big[bi] }; gcms_case(f, ks, dec, 0, pl, 2, aads[(l1 + bi) & 3], idx++); size_t pl2[3] = { big[bi], l1, 5 }; gcms_case(f, ks, dec, 0, pl2, 3, aads[l1 & 3], idx++); }
+		}
+		/* (e) thorough: four pieces (every residue pair carried twice) and pairs of loop-boundary pieces */
+		if (vk_thorough && !guard_mode && !pair_mode && !secrets_mode) {
+			for (size_t l1 = 0; l1 <= 33; l1++) {
+				if (item++ % vk_nshards != vk_shard) continue;
+				if (vk_deadline_hit()) { vk_stat("deadline_skipped", 1); continue; }
+				static const size_t l4s[] = { 0, 1, 15, 16, 17, 200 };
+				for (size_t l2 = 0; l2 <= 33; l2++) for (size_t l3 = 0; l3 <= 33; l3++) for (unsigned k = 0; k < 6; k++) {
+					size_t pl[4] = { l1, l2, l3, l4s[k] };
+					gcms_case(f, ks, dec, 0, pl, 4, aads[(l1 + l2 + l3 + k) & 3], idx++);
+				}
+			}
+			static const size_t bg[] = { 111, 112, 127, 128, 129, 255, 256, 257, 511, 512, 513, 767, 768, 769, 1023, 1024, 1025, 2047, 2048, 2049 };
+			for (unsigned b1 = 0; b1 < sizeof bg / sizeof *bg; b1++) {
+				if (item++ % vk_nshards != vk_shard) continue;
+				for (unsigned b2 = 0; b2 < sizeof bg / sizeof *bg; b2++) for (size_t l3 = 0; l3 <= 17; l3++) {
+					size_t pl[3] = { bg[b1], bg[b2], l3 };
+					gcms_case(f, ks, dec, 0, pl, 3, aads[(b1 + b2 + l3) & 3], idx++);
+				}
+			}
 		}
 		/* (d) non-temporal updates under the documented rule: 64-byte aligned buffers, non-final pieces multiples of 64 */
 		for (size_t a = 0; a <= 1024; a += 64) {
